@@ -248,3 +248,30 @@ Theorem C07_volume_example :
   /\ responses_for BatchEx.BEx.cfg0 BatchEx.BEx.s_init BatchEx.BEx.ops_r (2, 5, 12) = 0.
 Proof. exact GapC07.ExV.volume_ex. Qed.
 Print Assumptions C07_volume_example.
+
+(* ------------------------------------------------------------------------------------------
+   Known finding K3 inside the model (DESIGN.md 12.10). `XCallMod` (Model/ModSvc.v) is the
+   module-service branch of MsgCallService, executed by `xstep` on top of `pstep`; exclusion
+   X-K3 is "the history contains no XCallMod" (`k3_free`).  The statements below are refuted /
+   proved in Proofs/K3.v on concrete reachable witnesses (corpus history W10) by vm_compute. *)
+From Coq Require Import List ZArith Bool Lia.
+From SVC Require Import Base.AMap Base.Res Base.Dec Model.Types Model.Pricing Model.Handlers Model.EndBlock Model.Step Model.ParamStep Model.ModSvc Model.Genesis Proofs.Inv Proofs.ParamChange Proofs.K3.
+Import ListNotations.
+Open Scope Z_scope.
+
+Theorem C07_K3_fee_without_pricing_refuted :
+  exists (cfg : Params) (s : State) (o : XOp) (s' : State) (c : CtxId) (r : ReqId) 
+         (q : Req) (rc : Ctx),
+           wf_cfg cfg /\
+           Reach cfg s /\
+           is_callmod o = true /\
+           xstep (cfg, s) o = (cfg, s', ROk) /\
+           get r (reqs s') = Some q /\
+           rid_ctx r = c /\
+           get c (ctxs s') = Some rc /\
+           r_fee q = 1 /\
+           get (c_svc rc, r_prov q) (binds s') = None /\
+           get (c_svc rc, r_prov q) (pricing s') = None /\
+           sum_prices (filter_providers s' rc (c_provs rc)) = 0 /\ In (EvDebit c (c_cons rc) 0) (log s').
+Proof. exact K3.K3_fee_without_pricing_refuted. Qed.
+Print Assumptions C07_K3_fee_without_pricing_refuted.
